@@ -93,15 +93,15 @@ Local Open Scope R_scope.
 
 Lemma B2R_24 : B2R 53 1024 f64_24 = 24.
 Proof.
-  assert (E : f64_24 = B754_finite 53 1024 false 6755399441055744 (-48) eq_refl) by (vm_compute; reflexivity).
-  rewrite E. unfold B2R, F2R, Fnum, Fexp, cond_Zopp. unfold bpow. cbn [Z.pow_pos Pos.iter radix_val radix2 Z.mul Pos.mul].
+  assert (E : exists H, f64_24 = B754_finite 53 1024 false 6755399441055744 (-48) H) by (vm_compute; eexists; reflexivity).
+  destruct E as [H E]. rewrite E. unfold B2R, F2R, Fnum, Fexp, cond_Zopp. unfold bpow. cbn [Z.pow_pos Pos.iter radix_val radix2 Z.mul Pos.mul].
   lra.
 Qed.
 
 Lemma B2R_m24 : B2R 53 1024 f64_m24 = -24.
 Proof.
-  assert (E : f64_m24 = B754_finite 53 1024 true 6755399441055744 (-48) eq_refl) by (vm_compute; reflexivity).
-  rewrite E. unfold B2R, F2R, Fnum, Fexp, cond_Zopp. unfold bpow. cbn [Z.pow_pos Pos.iter radix_val radix2 Z.mul Pos.mul Z.opp].
+  assert (E : exists H, f64_m24 = B754_finite 53 1024 true 6755399441055744 (-48) H) by (vm_compute; eexists; reflexivity).
+  destruct E as [H E]. rewrite E. unfold B2R, F2R, Fnum, Fexp, cond_Zopp. unfold bpow. cbn [Z.pow_pos Pos.iter radix_val radix2 Z.mul Pos.mul Z.opp].
   lra.
 Qed.
 
